@@ -153,6 +153,12 @@ func runC04(c *Ctx) {
 	// ---- R04.5: nondeterminism sources -------------------------------------------
 	checkNondet(c, p, matchExplorer)
 
+	// shared with C08: the same bytes give the same results through Match and through MatchFrom on any reader only if
+	// the window filler counts the bytes of every Read, also of the one that reports the end or an error (R08.3)
+	if c.R.Filter == nil {
+		borrowRules(c, []string{"R08.3"}, runC08)
+	}
+
 	// ---- R04.4: map-order determinism ----------------------------------------------
 	checkMapOrder(c, p, matchFn, explored)
 
